@@ -115,12 +115,17 @@ pub fn run(ctx: &Ctx, rep: &mut Report) {
         };
         stress_lexicon(&mut rng, &mut sys, matrix.nid() as i64, size_class);
         let mut popts = PluginOpts::none();
-        popts.n_users = if small { rng.below(3) } else { *rng.pick(&[0usize, 0, 1, 2, 3, 7, 14]) };
+        // (15 user dictionaries are one too many: such a stack must be refused, and is then counted as a rejected world)
+        popts.n_users = if small { rng.below(3) } else { *rng.pick(&[0usize, 0, 1, 2, 3, 3, 5, 7, 14, 14, 15]) };
         let world = match guard(|| build_world_from(&mut rng, &dopts, matrix, sys, popts, if wi % 3 == 0 || small { Place::Offset(1) } else { Place::Owned })) {
             Ok(Ok(w)) => w,
             Ok(Err(e)) => {
                 rep.count("worlds_rejected", 1);
-                rep.notes.push(format!("world {}: {}", wi, clip(&e, 200)));
+                if e.contains("TooManyDictionaries") {
+                    rep.count("stacks_of_15_user_dictionaries_refused", 1);
+                } else {
+                    rep.notes.push(format!("world {}: {}", wi, clip(&e, 200)));
+                }
                 continue;
             }
             Err(p) => {
@@ -130,6 +135,10 @@ pub fn run(ctx: &Ctx, rep: &mut Report) {
         };
         rep.count("worlds", 1);
         rep.max("max_layers", 1 + world.users.len() as u64);
+        if world.users.len() >= 15 {
+            rep.violation("lookup_mismatch", "from_cfg_storage", "a stack of 15 user dictionaries was loaded: the 15th would get dictionary number 15, which marks out-of-vocabulary words", "", json!({"world_index": wi, "layers": world.users.len()}));
+            continue;
+        }
         let (model, maxlen) = index_model(&world);
         rep.max("max_indexed_keys", model.len() as u64);
         let keys = world.keys();
@@ -205,6 +214,12 @@ pub fn run(ctx: &Ctx, rep: &mut Report) {
                     let n = list.lookup(&q, InfoSubset::all()).map_err(|e| format!("{:?}", e))?;
                     let mut v: Vec<(u8, u32)> = list.iter().map(|m| (m.word_id().dic(), m.word_id().word())).collect();
                     v.sort();
+                    // the dictionary number as the morpheme reports it
+                    for m in list.iter() {
+                        if m.is_oov() || m.dictionary_id() != m.word_id().dic() as i32 {
+                            return Err(format!("entry {:#x} found by exact lookup reports dictionary {} / is_oov {}", m.word_id().as_raw(), m.dictionary_id(), m.is_oov()));
+                        }
+                    }
                     Ok::<_, String>((n, v))
                 });
                 let mut exp: Vec<(u8, u32)> = model.get(q.as_bytes()).cloned().unwrap_or_default();
@@ -212,6 +227,7 @@ pub fn run(ctx: &Ctx, rep: &mut Report) {
                 let scenario = || json!({"world_index": wi, "query": q, "world": world.describe(size_class < 2)});
                 match r {
                     Err(p) => rep.violation("lookup_panic", &p.site, &p.msg, "", scenario()),
+                    Ok(Err(e)) if e.starts_with("entry ") => rep.violation("exact_lookup_mismatch", "Morpheme::dictionary_id", &e, "", scenario()),
                     Ok(Err(e)) => rep.notes.push(format!("exact lookup error: {}", e)),
                     Ok(Ok((n, got))) => {
                         rep.count("exact_lookups", 1);
